@@ -12,7 +12,7 @@ import math
 import numpy as np
 from hypothesis import strategies as st
 
-from ..core import Law, HarnessError
+from ..core import Law, Violation, HarnessError
 from .. import gen
 from ..gen import fl
 from ..num import mink, proj_dist, minkowski_form
@@ -568,7 +568,16 @@ def conjugate(case, T0s, Cs):
     n, shape = case["n"], tuple(case["shape"])
     if case["via"] == "compose" and shape == ():
         Ci = Isometry(Cs[0].copy(), column_vectors=True)
-        return Ci @ T0s[0] @ Ci.inv()
+        keep = np.array(T0s[0].matrix, copy=True)
+        T = Ci @ T0s[0] @ Ci.inv()
+        # the operand is used again: conjugated by a second isometry, it is still itself
+        Cj = Isometry(np.linalg.inv(Cs[0]), column_vectors=True)
+        Cj @ T0s[0] @ Cj.inv()
+        if not np.array_equal(np.array(T0s[0].matrix), keep):
+            raise Violation("composing isometries changed the right operand (the isometry "
+                            "that was conjugated is no longer what it was)",
+                            {"before": keep.tolist(), "after": np.array(T0s[0].matrix).tolist()})
+        return T
     if case["via"] in ("compose_queried", "reassigned"):
         # the same product, formed after the operands have been asked for *their* fixed
         # points and axes (what they answered must not travel into the product), or written
@@ -673,6 +682,13 @@ def lox_unit(draw, n):
     u = dict(C=draw(iso_spec(n)))
     u["l"] = draw(st.one_of(fl(0.05, 4.0), st.sampled_from([0.05, 1.0, 4.0]))) * \
         draw(st.sampled_from([-1.0, 1.0]))
+    # the parameter of standard_loxodromic is e^l: for l = log 2, log 3, log 5 it is a whole
+    # number, which a caller may well write as an int (or hold in a NumPy integer)
+    u["intparam"] = None
+    if draw(st.integers(0, 4)) == 0:
+        k = draw(st.sampled_from([2, 3, 5]))
+        u["l"] = math.log(k)
+        u["intparam"] = [k, draw(st.sampled_from(["pyint", "npint"]))]
     u["rot"] = None
     if n >= 3 and draw(st.booleans()):
         m = n - 1
@@ -683,7 +699,11 @@ def lox_unit(draw, n):
 
 
 def lox_T0(n, u):
-    T0 = Isometry.standard_loxodromic(n, math.exp(u["l"]))
+    if u.get("intparam"):
+        k, how = u["intparam"]
+        T0 = Isometry.standard_loxodromic(n, int(k) if how == "pyint" else np.int64(k))
+    else:
+        T0 = Isometry.standard_loxodromic(n, math.exp(u["l"]))
     if u["rot"] is not None:
         m = n - 1
         Rb = np.eye(n + 1)
@@ -1003,6 +1023,23 @@ def body_coxeter(case, ctx):
 
 
 # ---------------------------------------------------------------------------
+def exhaustive_empty(tier):
+    return [("empty composites of isometries (a selection that selected nothing), n = 2..4",
+             [dict(n=n, shape=sh) for n in (2, 3, 4) for sh in ([0], [0, 2], [2, 0])])]
+
+
+def body_empty(case, ctx):
+    """an empty composite isometry has an empty composite of fixed points / axes"""
+    n, shape = case["n"], tuple(case["shape"])
+    E = Isometry(np.zeros(shape + (n + 1, n + 1)))
+    ctx.label("n=%d" % n, "rank=%d" % len(shape), "C!=identity")
+    ctx.check(tuple(E.shape) == shape, "shape of the empty composite", got=E.shape)
+    for q in ("fixed_point", "fixed_point_pair", "axis", "inv"):
+        r = getattr(E, q)()
+        ctx.check(tuple(r.shape) == shape, "%s() of an empty composite is an empty composite "
+                  "of the same shape" % q, got=tuple(r.shape), want=shape)
+
+
 def nt_conj(labels):
     return "C!=identity" in labels and not any(l.startswith("excluded:") for l in labels)
 
@@ -1026,6 +1063,7 @@ LAWS = [
         quick=400, thorough=2800, shards=(1, 4)),
     Law("fixed_points_unsorted_option", unsorted_case(), body_unsorted, nt_conj, quick=300,
         thorough=2000, shards=(1, 4)),
+    Law("empty_composites", None, body_empty, lambda l: True, exhaustive=exhaustive_empty),
     Law("coxeter_reflections", coxeter_case(), body_coxeter, lambda l: True, quick=60,
         thorough=800, shards=(1, 2)),
 ]
